@@ -34,11 +34,15 @@ type app struct {
 }
 
 func main() {
+	configs, err := configLocations()
+	fatalIfError(err)
+
 	var app app
-	k := kong.Must(&app,
+	// not kong.Must: a configuration file which can't be loaded is an error of the user, not a reason for stack trace
+	k, err := kong.New(&app,
 		kong.Name("ps3netsrv-go"),
 		kong.Description("Alternative ps3netsrv implementation for installing games over network."),
-		kong.Configuration(kongini.Loader, configLocations()...),
+		kong.Configuration(kongini.Loader, configs...),
 		kong.Vars{
 			"version": fmt.Sprintf("%s (commit '%s' at '%s' build by '%s')", version, commit, date, builtBy),
 		},
@@ -46,12 +50,21 @@ func main() {
 		kongutil.OutputFileMapper,
 		kongutil.BinSizeMapper,
 	)
+	fatalIfError(err)
+
 	ctx, err := k.Parse(translateArgs(os.Args[1:]))
 	k.FatalIfErrorf(err)
 	k.FatalIfErrorf(ctx.Run())
 }
 
-func configLocations() []string {
+func fatalIfError(err error) {
+	if err != nil {
+		fmt.Fprintf(os.Stderr, "ps3netsrv-go: error: %v\n", err)
+		os.Exit(1)
+	}
+}
+
+func configLocations() ([]string, error) {
 	var ret []string
 	userConfigDir, err := os.UserConfigDir()
 	if err == nil {
@@ -63,10 +76,19 @@ func configLocations() []string {
 	// kong handles ConfigFlag only when it's given in command line, so file from environment goes here
 	// (last one to have precedence over default locations)
 	if configFile, ok := os.LookupEnv(configFileEnv); ok && configFile != "" {
+		// kong skips files which can't be opened, that's right for default locations only:
+		// settings (a whitelist!) of a file named by user must not vanish silently
+		f, err := os.Open(configFile)
+		if err != nil {
+			return nil, err
+		}
+
+		_ = f.Close()
+
 		ret = append(ret, configFile)
 	}
 
-	return ret
+	return ret, nil
 }
 
 // hack to run server if 1st arg is a path to directory
